@@ -2,8 +2,8 @@
 
 1. TLC model-checks the outcome protocol SyltPipeline on its own (small bounds): invariants, no dead
    end, every fair behaviour reaches Finish, every action covered; the token-string universe is sane.
-2. The recorder (harness c07) runs the real compiler in isolated worker processes (stall watchdog,
-   solitary re-run, abort detection) over
+2. The recorder (harness c07) runs the real compiler in isolated worker processes (stall watchdog and
+   solitary re-run on CPU-time budgets, abort detection) over
      - the exhaustive token-string universes TokenStringAt(Tok20, <=4/5) and (Tok31, <=3/4), no std,
      - seeded mutations of the corpus (/repo/tests/**/*.sy, /repo/std/*.sy), with and without std,
      - multi-file projects served from memory (missing/cyclic/colliding imports, std names, arbitrary text),
@@ -11,7 +11,10 @@
        nest / nestraw / nestsolo (every nestable construct in itself and in every other, depths 8..32, trailing and
        not, well typed and with a planted type error), place (top-level-only statements at every inner position x
        what else the name is; inner-only statements at the top level), cyc (import cycles whose files have syntax
-       errors), selfty (self-referential inferred types in a type error),
+       errors), selfty (self-referential inferred types in a type error), text, entry, lit (arithmetic over literals whose
+       value reaches and crosses +-2^63 / the largest double, at every place an expression can stand) and hist (HISTORIES:
+       two or three programs compiled one after the other in one fresh thread; every run must be a complete behaviour
+       and return the verdict the program gets when it is compiled alone: SyltPipeline!Again, HistoryFree),
    and writes one event list per input. TLC (Trace_Pipeline) re-derives the token strings from their
    indices, validates every event list as a COMPLETE behaviour of SyltPipeline with all invariants
    evaluated in every state, and prints one REJECT line per run that is not. Those lines are the verdicts.
@@ -32,7 +35,7 @@ PID = "C07"
 TRACE_ACTIONS = ("TraceStart", "TraceParseOk", "TraceRetErr", "TraceRetOk", "TraceRender", "TraceFinish", "TraceAccept")
 UNIVERSE_PRIORITY = {"tok20.top": 0, "tok20.body": 0, "tok31.body": 1, "tok31.raw": 1, "tok31.top": 1, "fam": 2, "proj": 2, "mut-sys": 3,
                      "mut": 4, "replay": 5}
-FAMILIES = ("nest", "nestraw", "nestsolo", "place", "cyc", "selfty", "text", "entry")
+FAMILIES = ("nest", "nestraw", "nestsolo", "place", "cyc", "selfty", "text", "entry", "lit", "hist")
 # SyltPipeline's text family spells a 2-, 3-, 4-byte character as an ASCII placeholder; the recorder replaces them (c07.rs project_of)
 TEXT_PLACEHOLDERS = (("@2@", "\u00e9"), ("@3@", "\u65e5"), ("@4@", "\U0001F600"))
 SELF_ARITH = ("neg", "addself", "subself", "mulself", "divself", "lessself")
@@ -145,7 +148,7 @@ def absorb(run, wd, name, label, r, rejects, uni, tok, keep_samples=2, fam=False
                     want_cases[i] = json.loads(line)
     for k, rec in sorted(rej_recs.items()):
         run.rejected.append((label, rec, rejects[k], want_cases.get(k)))
-    for a in TRACE_ACTIONS + ("TraceReject",):
+    for a in TRACE_ACTIONS + ("TraceAgain", "TraceReject"):
         run.coverage[a] = run.coverage.get(a, 0) + r.coverage.get(a, (0, 0))[1]
     run.states += r.distinct
     run.transitions += r.generated
@@ -244,13 +247,24 @@ def emit_family(wd, fam):
         vlib.tool_error("MC_Families/%s: TLC says the family has %r cases but printed %d" % (fam, size, len(cases)))
     out = []
     ids = set()
-    for k in range(1, size + 1):
-        p = cases[k]
-        names = [f["name"] for f in p["files"]]
+
+    def files_of(k, files):
+        names = [f["name"] for f in files]
         if names[0] != "main.sy" or names[1:] != sorted(set(names[1:])) or "main.sy" in names[1:]:
             vlib.tool_error("MC_Families/%s: case %d: files must be main.sy followed by the others in name order: %r" % (fam, k, names))
+        return {f["name"]: f["text"] for f in files}
+
+    for k in range(1, size + 1):
+        p = cases[k]
         ids.add(p["id"])
-        out.append({"id": p["id"], "kind": "fam:" + fam, "base": "", "files": {f["name"]: f["text"] for f in p["files"]},
+        if "steps" in p:
+            # a history: the recorder compiles its programs one after the other in one fresh thread (and each alone in another)
+            if not 2 <= len(p["steps"]) <= 3:
+                vlib.tool_error("MC_Families/%s: case %d: a history has 2 or 3 programs" % (fam, k))
+            out.append({"id": p["id"], "kind": "fam:" + fam, "base": "", "files": {}, "main": "main.sy", "no_std": True, "corpus": False,
+                        "steps": [{"files": files_of(k, st["files"]), "no_std": st["nostd"]} for st in p["steps"]]})
+            continue
+        out.append({"id": p["id"], "kind": "fam:" + fam, "base": "", "files": files_of(k, p["files"]),
                     "main": "main.sy", "no_std": p["nostd"], "corpus": False})
     if len(ids) != size:
         vlib.tool_error("MC_Families/%s: case ids are not unique" % fam)
@@ -271,6 +285,8 @@ def fam_cell(rec, key):
         return group + "/" + key
     if fam == "cyc":
         clean = parts[4] == "none" or (parts[1] == "self" and parts[4] == "othersonly")      # no file has a syntax error
+        if clean and parts[2] == "frommissing":
+            return "missing/" + key         # every file imports a name from the next one, nobody defines it: a rendered error
         return ("clean" if clean else "broken") + "/" + key
     if fam == "text":
         valid = parts[1] in ("string", "comment") and parts[7] == "none"       # a valid program / one with an error somewhere
@@ -279,6 +295,17 @@ def fam_cell(rec, key):
         return parts[1] + "/" + key
     if fam == "selfty":
         return ("tuple-arith" if fam_site(rec["id"]) == "selfty-tuple-arith" else "any") + "/" + key
+    if fam == "lit":
+        # every literal is a token (a valid program) / one literal is beyond the 64-bit token / the literal is a tuple index
+        return {"lex": "beyond", "index": "index"}.get(parts[1], "valid") + "/" + key
+    if fam == "hist":
+        if key == "incomplete":
+            return "runs/incomplete"
+        # did every run of the history end as the program is meant to (content `ok` compiles, every other content is rejected)?
+        progs = rec["id"][len("hist:"):].split(">")
+        rets = [e for e in rec["ev"] if e["e"] == "ret"]
+        meant = len(rets) == len(progs) and all((p.split(".")[1] == "ok") == (e["r"] == "ok") for p, e in zip(progs, rets))
+        return "runs/asmeant" if meant else "runs/notasmeant"
     return "any/" + key
 
 
@@ -288,11 +315,13 @@ FAMILY_GUARDS = {
     "nestraw": (("ok/ok-compile", "ok/", 0.95), ("err/err-compile", "err/", 0.95)),
     "nestsolo": (("ok/ok-compile", "ok/", 0.95), ("err/err-compile", "err/", 0.95)),
     "place": (("decl/err-compile", "decl/", 0.95), ("inner/err-parse", "inner/", 0.95)),
-    "cyc": (("broken/err-parse", "broken/", 0.95), ("clean/ok-compile", "clean/", 0.95)),
+    "cyc": (("broken/err-parse", "broken/", 0.95), ("clean/ok-compile", "clean/", 0.95), ("missing/err-compile", "missing/", 0.95)),
     "selfty": (("any/err-compile", "any/", 0.75),),
     "text": (("valid/ok-compile", "valid/", 0.95), ("typeerr/err-compile", "typeerr/", 0.95), ("lexerr/err-parse", "lexerr/", 0.95)),
     "entry": (("main/ok-compile", "main/", 0.25), ("fromuse/ok-compile", "fromuse/", 0.20), ("both/ok-compile", "both/", 0.25),
               ("none/err-compile", "none/", 0.70), ("fromas/err-compile", "fromas/", 0.70)),
+    "lit": (("valid/ok-compile", "valid/", 0.95), ("beyond/err-parse", "beyond/", 0.95)),
+    "hist": (("runs/asmeant", "runs/", 0.95),),
 }
 
 
@@ -391,7 +420,7 @@ def minimise(wd, case, n):
         json.dump(case, f)
     try:
         p = subprocess.run([os.path.join(vlib.BIN, "c07"), "minimise", path], stdout=subprocess.PIPE,
-                           stderr=subprocess.PIPE, text=True, timeout=400, env=dict(os.environ, VERIF_ROOT=vlib.ROOT))
+                           stderr=subprocess.PIPE, text=True, timeout=3600, env=dict(os.environ, VERIF_ROOT=vlib.ROOT))      # (its own budget is 90 s of CPU time)
         if p.returncode != 0:
             return None
         return json.loads(p.stdout.strip().splitlines()[-1])
@@ -440,22 +469,30 @@ def add_verdicts(run, wd, verdicts):
         provisional = "C07|%s|%s|unminimised:%s" % (why, site or "-", rec["id"])
         is_known = rec.get("kind", "").startswith("fam:") and any(
             k.get("signature") == provisional or (k.get("signature_re") and re.match(k["signature_re"], provisional)) for k in verdicts.known)
-        if not is_known:        # (a known finding of a family is recognised by class and construct: no need to spend a minute minimising it)
+        is_history = bool(orig.get("steps"))      # (the minimiser works on one program; a history keeps its id: it spells the programs)
+        if not is_known and not is_history:        # (a known finding of a family is recognised by class and construct: no need to spend a minute minimising it)
             rep = minimise(wd, orig, gi)
         if rep is not None and rep["class"] == why:
             skel, mini, site_file = rep["skeleton"], rep["case"], rep["site_file"]
+        elif why == "history-dependent":
+            # no crash: the run returned another verdict than the program compiled alone; the id spells the history
+            skel, mini, site_file = "unminimised:" + rec["id"], orig, ""
         elif why in ("truncated", "protocol", "err-without-errors", "ok-without-output", "empty-rendering", "finish-before-all-rendered"):
             # protocol breaches that are no crash: the recorder's minimiser only knows crash classes
             skel, mini, site_file = rec["kind"], orig, ""
         else:
             # (family members: the id spells the construct, position and class the case was built from)
-            skel = "unminimised:" + (rec["id"] if rec.get("kind", "").startswith("fam:") else rec["kind"])
+            skel = "unminimised:" + (rec["id"] if rec.get("kind", "").startswith("fam:") or is_history else rec["kind"])
             mini, site_file = orig, site.rsplit("/", 1)[-1].split(":")[0]
         if not site_file and rec.get("kind", "").startswith("fam:"):
             site_file = site
         sig = "C07|%s|%s|%s" % (why, site_file or "-", skeleton_sig(skel))
         what = "run is not a complete behaviour of SyltPipeline (%s at event %d, phase %s): %s  [first of %d inputs: %s]" % (
             why, rej["ev"], rej["phase"], rec.get("pmsg", "")[:160], len(members), rec["id"])
+        if is_history:
+            what = "run %d of a history (programs compiled one after the other in one thread): " % rej.get("run", 0) + what
+            if why == "history-dependent":
+                what += "  [alone: %r]" % (rec.get("solo"),)
         if why == "timeout" and run.notrun:
             what += "  [the recorder stopped after 8 timeouts per universe: %d inputs were not run]" % run.notrun
         for (l2, r2, j2, c2) in members:
@@ -569,6 +606,43 @@ def family_negative_controls(wd):
     return n
 
 
+def history_negative_controls(wd):
+    """The binding of the histories: a record whose run returns another verdict than its program alone, a history whose
+    later runs are missing, and runs that are not separated by `next` must be rejected, each with its class."""
+    recs = []
+    with open(os.path.join(wd, "fam-hist.trace.ndjson")) as f:
+        for line in f:
+            recs.append(json.loads(line))
+            if len(recs) == 60:
+                break
+    if len(recs) < 60 or any(r["ev"][-1]["e"] != "finish" or "solo" not in r for r in recs):
+        return 0            # the family itself is being rejected in this run: the controls are calibrated for complete runs
+    planted = {}
+    flip = {"ok": "err", "err": "ok"}
+    r = recs[2]
+    r["solo"][1] = dict(r["solo"][1], r=flip[r["solo"][1]["r"]])                 # alone: the other verdict class
+    planted[3] = "history-dependent"
+    r = recs[4]
+    r["solo"][0] = dict(r["solo"][0], n=r["solo"][0]["n"] + 1)                   # alone: one more error
+    planted[5] = "history-dependent"
+    r = recs[6]
+    kinds = [e["e"] for e in r["ev"]]
+    del r["ev"][kinds.index("next"):]                                            # the second program was never compiled
+    planted[7] = "truncated"
+    r = recs[8]
+    kinds = [e["e"] for e in r["ev"]]
+    del r["ev"][kinds.index("next")]                                             # a second run without `next`
+    planted[9] = "protocol"
+    vlib.write_ndjson(os.path.join(wd, "neg-hist.trace.ndjson"), recs)
+    r, rejects, uni = tlc_validate(wd, "neg-hist", "fam.hist", 0, workers=2)
+    got = {k: p["why"] for k, p in rejects.items()}
+    if got != planted:
+        vlib.tool_error("negative control accepted: planted %r in history records, TLC rejected %r" % (planted, got))
+    if r.coverage.get("TraceAgain", (0, 0))[1] == 0:
+        vlib.tool_error("vacuity: trace action TraceAgain never taken")
+    return len(planted)
+
+
 # --------------------------------------------------------------------------- main
 
 def spec_model(wd, ev):
@@ -640,7 +714,7 @@ def run(ctx):
     reports = add_verdicts(run_, wd, verdicts)
 
     # 4. vacuity guards
-    for a in TRACE_ACTIONS:
+    for a in TRACE_ACTIONS + ("TraceAgain",):
         if run_.coverage.get(a, 0) == 0:
             vlib.tool_error("vacuity: trace action %s never taken" % a)
     mk = run_.universes["mutations"]["kinds"]
@@ -659,7 +733,7 @@ def run(ctx):
     family_guards(run_)
 
     # 5. negative controls (binding demonstration)
-    neg = negative_controls(wd, tier) + family_negative_controls(wd)
+    neg = negative_controls(wd, tier) + family_negative_controls(wd) + history_negative_controls(wd)
 
     ev.set(evaluations=run_.records, distinct_nontrivial=run_.distinct_nontrivial,
            states=run_.states + m.distinct, transitions=run_.transitions + m.generated,
@@ -668,7 +742,9 @@ def run(ctx):
                 "under universes (framed as top-level text, as entry-point body, or raw), index-addressed with completeness decided by TLC; "
                 "the TLA+-defined families of structured programs fam.* (SyltPipeline!FamCase, emitted and re-derived by TLC: constructs "
                 "nested in themselves and in each other to depth 8/16/24/32, misplaced statements, import cycles with syntax errors, "
-                "self-referential types in type errors); the project families x module variants x {std,no-std}; "
+                "self-referential types in type errors, multi-line tokens, the origin of the entry point, arithmetic over literals towards "
+                "the numeric limits at every expression position, and HISTORIES of two or three compilations in one thread, each run "
+                "compared by TLC with the verdict of its program compiled alone); the project families x module variants x {std,no-std}; "
                 "and seeded corpus mutations (20 kinds); a case counts as distinct+non-trivial when its content hash (files, main, flags) "
                 "is new in this run and its main file has >=1 token",
            samples=run_.samples[:30], universes=run_.universes, outcomes=run_.outcomes,
@@ -677,10 +753,14 @@ def run(ctx):
            negative_controls_rejected=neg, known_findings_hit=verdicts.known_hits,
            exhaustive=False, exhaustive_parts=[k for k in run_.universes if k.startswith("tok") or k.startswith("fam.")])
     ev.assume("TLC, SyltPipeline and the recorder c07 (maps API outcomes to events) are trusted",
-              "hangs are detected by budgets (15 s stall in a batch, then 60 s alone), not proved absent; after 8 recorded timeouts in one "
+              "hangs are detected by budgets of CPU time of the worker process (15 s without a result in a batch, then 60 s alone; wall-clock "
+              "time is only a 15 min backstop that ends the check as a tool error, never as a verdict), not proved absent; after 8 recorded timeouts in one "
               "universe the recorder stops and the remaining inputs of that universe are `notrun` (rejected by TLC, reported with the timeouts)",
               "nesting depth of generated inputs is bounded by 40; workers run with a 512 MB stack and a 6 GB address-space limit",
-              "bytes written before a failure are recorded but not constrained by C07 (see C03/C06)")
+              "bytes written before a failure are recorded but not constrained by C07 (see C03/C06)",
+              "histories: `alone` is the first compilation of a fresh thread of the worker process (observed once per worker and "
+              "distinct program); state shared by ALL threads of a process would show as a panic / changed verdict of later cases, "
+              "not as a difference to `alone`")
     rc = verdicts.finish()
     ev.violations = len(verdicts.violations)
     ev.write()
